@@ -1087,7 +1087,6 @@ func c18Check(tb ev.TB, rec *ev.Rec, cs *c18case) {
 		var ncond condition.Condition
 		var nerr error
 		var ngot bool
-		req.Query, req.CookieMap = nil, nil
 		if p := ev.Try(func() {
 			ncond, nerr = condition.Build(neg)
 			if nerr == nil {
@@ -1110,7 +1109,7 @@ func c18Check(tb ev.TB, rec *ev.Rec, cs *c18case) {
 }
 
 func TestC18(t *testing.T) {
-	rec := ev.New("C18", "per primitive (all 56 of funcProtos): pattern argument + request whose inspected attribute is derived from a pattern by mutation (equal/append/prepend/embed/case flip/drop/change one char/empty/absent), IPs at range bounds (v4, v6, 4-in-6 peers, trusted-proxy headers), hash buckets at section bounds, debug-time at window bounds; requests are HTTP/1 wire bytes parsed by bfe_http.ReadRequest. non-trivial: decided by the docs and not an unrelated/random value; distinct by (condition string, request spec)")
+	rec := ev.New("C18", "per primitive (all 56 of funcProtos): pattern argument + request whose inspected attribute is derived from a pattern by mutation (equal/append/prepend/embed/case flip/drop/change one char/empty/absent), IPs at range bounds (v4, v6, 4-in-6 peers, trusted-proxy headers), hash buckets at section bounds, debug-time at window bounds; plus sequences guard condition -> query actions (QUERY_ADD/DEL/RENAME/DEL_ALL_EXCEPT via bfe_basic/action) -> query primitives, half of them on targets without a query string; requests are HTTP/1 wire bytes parsed by bfe_http.ReadRequest. non-trivial: decided by the docs and not an unrelated/random value; distinct by (condition string, request spec)")
 	if p := os.Getenv("VERIF_REPLAY_JSON"); p != "" {
 		c18Replay(t, rec, p)
 		return
@@ -1126,6 +1125,10 @@ func TestC18(t *testing.T) {
 			cs := genCase(rt, &catalogue[i])
 			rec.Sample(map[string]any{"cond": cs.Cond, "label": cs.Label, "uri": cs.Spec.requestURI(), "host": cs.Spec.Host})
 			c18Check(rt, rec, cs)
+		}
+		// query primitives on requests rewritten by query actions
+		for i := 0; i < 8; i++ {
+			c18SeqCheck(rt, rec, genSeq(rt))
 		}
 	})
 }
